@@ -26,10 +26,11 @@ const (
 	symX1         // the first id in a message whose type is the OTHER family's echo reply number (ICMPv6 type 0 / ICMPv4 type 129): not an echo reply
 	symR1o        // echo reply carrying the first id, sent from ANOTHER address of the replier (multicast ping, multi-homed host): completes the ping
 	symR1e        // echo reply carrying the first id and no data at all (an 8 byte ICMP message): completes the ping
+	symP          // IPv4 echo reply cut to 4 bytes by the IP total length, in a frame padded to 60 bytes whose padding holds the first id where the identifier would be (malformed)
 	nSyms
 )
 
-var symNames = []string{"reply(id1)", "reply(id2)", "reply(foreign)", "request(id1)", "short(id1)", "othertype(id1)", "reply(id1,other source)", "reply(id1,no data)"}
+var symNames = []string{"reply(id1)", "reply(id2)", "reply(foreign)", "request(id1)", "short(id1)", "othertype(id1)", "reply(id1,other source)", "reply(id1,no data)", "cut-by-total-length(id1 in the padding)"}
 
 type pingEvent struct {
 	kind string // sent, returned, delivered
@@ -172,6 +173,13 @@ func c19ScenarioF(v6second bool, seq []int, failAt int) *concScenario {
 								m := refnet.ICMP4(0, 0, [4]byte{byte(r.id >> 8), byte(r.id), 0, 1}, nil)
 								f = refnet.Eth(env.HostMAC, env.MAC1, 0x0800, refnet.IP4(ip4a, ip4host, 1, m, refnet.IP4Opt{}))
 							}
+						}
+					case symP:
+						if r, ok = pick(0); ok && !r.six {
+							m := refnet.ICMP4(0, 0, [4]byte{byte(r.id >> 8), byte(r.id), 0, 1}, nil)
+							f = refnet.Eth(env.HostMAC, env.MAC1, 0x0800, refnet.IP4(ip4a, ip4host, 1, m[:4], refnet.IP4Opt{}))
+							f = append(f, m[4:8]...)
+							f = append(f, make([]byte, 60-len(f))...)
 						}
 					case symR1o:
 						if r, ok = pick(0); ok {
